@@ -1058,9 +1058,10 @@ impl<'a> CompactionIterator<'a> {
 				.first()
 				.is_none_or(|&oldest| oldest >= self.accumulated_versions[0].0.seq_num());
 
-		// Check if any version is REPLACE
-		// REPLACE semantics: delete all older versions regardless of retention
-		let has_set_with_delete = self.accumulated_versions.iter().any(|(key, _)| key.is_replace());
+		// REPLACE semantics: delete all OLDER versions regardless of retention.
+		// Set while walking from newest to oldest once a REPLACE has been passed;
+		// versions newer than the REPLACE are ordinary versions.
+		let mut older_than_replace = false;
 
 		// Track the visibility of the previous (newer) version we processed.
 		// Used to detect when a newer version supersedes an older one.
@@ -1146,8 +1147,8 @@ impl<'a> CompactionIterator<'a> {
 			} else if is_hard_delete {
 				// Older DELETE: always stale (only latest tombstone matters)
 				true
-			} else if has_set_with_delete && !is_replace {
-				// REPLACE found: all older non-REPLACE versions are stale
+			} else if older_than_replace {
+				// A newer REPLACE erased this version
 				true
 			} else {
 				// Older PUT: check versioning and retention
@@ -1193,6 +1194,9 @@ impl<'a> CompactionIterator<'a> {
 
 			// Update for next iteration (this version becomes the "newer" one)
 			newer_version_visibility = Some(current_visibility);
+			if is_replace {
+				older_than_replace = true;
+			}
 		}
 
 		// Clear accumulated versions for the next key
